@@ -15,6 +15,7 @@ import (
 	"github.com/openebs/jiva/backend/dynamic"
 	"github.com/openebs/jiva/backend/remote"
 	"github.com/openebs/jiva/controller"
+	controllerclient "github.com/openebs/jiva/controller/client"
 	controllerrest "github.com/openebs/jiva/controller/rest"
 	"github.com/openebs/jiva/rpc"
 	"github.com/openebs/jiva/types"
@@ -165,6 +166,8 @@ type Stack struct {
 	CtrlIP string
 	ctrlLn net.Listener
 	System bool
+	// RegAll: at bring-up all initial replicas register before the volume starts
+	RegAll bool
 	// PromoWindow, when set, runs between VerifyRebuildReplica and SetRebuilding(false)
 	PromoWindow func()
 }
@@ -251,6 +254,17 @@ func (st *Stack) EnableSystem() error {
 	if bin == "" {
 		return fmt.Errorf("VERIF_JIVA_BIN not set")
 	}
+	if err := st.EnableCtrlREST(); err != nil {
+		return err
+	}
+	return st.enableAgents()
+}
+
+// EnableCtrlREST starts the controller's REST API on <ctrl ip>:9501.
+func (st *Stack) EnableCtrlREST() error {
+	if st.ctrlLn != nil {
+		return nil
+	}
 	st.CtrlIP = nodeIP(st.slot, 200)
 	ln, err := net.Listen("tcp", st.CtrlIP+":9501")
 	if err != nil {
@@ -258,7 +272,7 @@ func (st *Stack) EnableSystem() error {
 	}
 	st.ctrlLn = ln
 	st.serveController()
-	return st.enableAgents()
+	return nil
 }
 
 var (
@@ -353,6 +367,16 @@ func (st *Stack) NodeByAddr(addr string) *Node {
 	return nil
 }
 
+// RegisterREST registers the way a replica process does: the product's
+// controller client posts to the controller's REST API (/v1/register), whose
+// handler hands the registration to Controller.RegisterReplica.
+func (st *Stack) RegisterREST(reg types.RegReplica) error {
+	if err := st.EnableCtrlREST(); err != nil {
+		return err
+	}
+	return controllerclient.NewControllerClient(st.CtrlURL()).Register(reg.Address, reg.UUID, reg.RevCount, reg.RepType, reg.UpTime, reg.RepState)
+}
+
 // Register lets node i register (as a restarted replica does) and returns the
 // addresses (IPs) that received a successful "start" signal as a result.
 func (st *Stack) Register(i int) ([]string, error) {
@@ -365,7 +389,7 @@ func (st *Stack) Register(i int) ([]string, error) {
 	}
 	state, _ := n.S.PrevStatus()
 	before := len(st.Fac.SignalsCopy())
-	if err := st.C.RegisterReplica(types.RegReplica{Address: n.IP, UUID: uuid, RevCount: rev, RepType: "Backend", RepState: string(state)}); err != nil {
+	if err := st.RegisterREST(types.RegReplica{Address: n.IP, UUID: uuid, RevCount: rev, RepType: "Backend", RepState: string(state)}); err != nil {
 		return nil, fmt.Errorf("register: %v", err)
 	}
 	var out []string
@@ -502,6 +526,32 @@ func (st *Stack) BringUp(k int) error {
 	// a majority of the RF replicas registers; the first one (all revisions
 	// are equal on fresh replicas) is signalled and starts the volume
 	started := -1
+	if st.RegAll {
+		// all k replicas come up together: every one of them registers before the
+		// elected one has started the volume (a replica process registers for as
+		// long as the volume reports no replicas)
+		var sig []string
+		for j := 0; j < k && j < len(st.Nodes); j++ {
+			s, err := st.Register(j)
+			if err != nil {
+				return err
+			}
+			sig = append(sig, s...)
+		}
+		for _, ip := range sig {
+			for j, n := range st.Nodes {
+				if n.IP == ip && started < 0 {
+					if err := st.C.Start(n.Addr); err != nil {
+						return fmt.Errorf("start n%d: %v", j, err)
+					}
+					started = j
+				}
+			}
+		}
+		if started < 0 && k > st.RF/2 {
+			return fmt.Errorf("bring-up: %d replicas registered (RF=%d), nobody was asked to start", k, st.RF)
+		}
+	}
 	for j := 0; j <= st.RF/2 && j < len(st.Nodes) && started < 0; j++ {
 		var err error
 		if started, err = st.Boot(j); err != nil {
